@@ -40,3 +40,11 @@ MODULES = {
 OBLIG = ["QuillModel.Obligations.BackendC"]
 OBLIG_BY_PROP = {"C16": ["QuillModel.Obligations.BackendC_C16", "QuillModel.Obligations.BackendC_Common"], "C20": ["QuillModel.Obligations.BackendC_C20", "QuillModel.Obligations.BackendC_Common"],
                  "C17": ["QuillModel.Obligations.BackendC_C17", "QuillModel.Obligations.BackendC_Common"], "C07": ["QuillModel.Obligations.BackendC_C07", "QuillModel.Obligations.BackendC_Common"]}
+# w2_prog: the exit loop read as unbounded, every tick > 0 (Props/C07Unbounded.lean)
+THEOREMS["C07"] += ["Backend.C07_exit_terminates_unbounded", "Backend.C07_exit_limit_form", "Backend.C07_exit_fuel_immaterial",
+                    "Backend.C07_exit_drains_everything_unbounded", "Backend.C07_exit_flushes_last_unbounded"]
+MODULES["C07"] += ["QuillModel.Props.C07Unbounded"]
+# w2_prog: the caller parked by remove_logger_blocking has its removal record in the ghost history (Props/C17Parked.lean)
+THEOREMS["C17"] += ["Backend.C17_accepted_history_grows", "Backend.C17_parking_call_committed_its_request",
+                    "Backend.C17_remove_blocking_parks_on_its_record", "Backend.C17_remove_blocking_contract"]
+MODULES["C17"] += ["QuillModel.Props.C17Parked"]
